@@ -272,8 +272,10 @@ PROPS = {
                 "windows 0..5, 3 join conditions) ALL merges of the two arrival orders are run; every third merge additionally with watermark updates between arrivals (non-evicting and evicting); "
                 "non-trivial = at least one pair emitted",
         "level_text": "Theorem for every join condition, window, number of events/keys and EVERY interleaving of the two streams' arrivals: the emitted pairs are a permutation of the reference join "
-                "(each pair exactly once), hence interleaving-independent. Proved by a buffer invariant over the op list. Watermark advances (re-scan, eviction) are covered by the Coq-defined monitor "
-                "Join.ok (emitted = reference join when nothing can have been evicted; duplicate-free subset otherwise) on the real StreamJoinNode, and by model-vs-code comparison of every emission.",
+                "(each pair exactly once), hence interleaving-independent. Proved by a buffer invariant over the op list, now WITH watermark updates anywhere in the history (Proofs/JoinWmProofs.v): as long as no update finds an expired event "
+                "the emitted pairs are exactly the reference join - the re-scan of update_watermark emits nothing (invariant: every satisfying buffered pair was emitted and flagged on both sides when its later event arrived) and the "
+                "eviction pass returns buffers and flags unchanged. Histories in which something is evicted are covered by the Coq-defined monitor Join.ok (duplicate-free subset of the reference join) on the real "
+                "StreamJoinNode, and by model-vs-code comparison of every emission.",
         "level_note": "Trusted: Coq kernel; model of stream_join_node.rs (Inner/TimeWindow; closures as parameters; event ids unique); harness; extraction. Theorem is partial w.r.t. watermark updates (named "
                 "..._partial). StreamJoinManager routing not modelled. Axioms: none.",
         "trusted_base": [],
